@@ -242,6 +242,11 @@ def fixtures():
     return _fix
 
 
+def worker_cleanup():
+    if 'signer' in _fix:
+        _fix['signer'].close()
+
+
 class RecordingEnv(IsolatedGPGEnvironment):
     __slots__ = ['handed']
 
